@@ -146,6 +146,25 @@ RegistryT<ArgsT<TG_, TSL_, TRL_, NCC_, 0, 0, TRO_ HFSM2_IF_SERIALIZATION(, NSB_)
 
 		compoRequested[parent.forkId - 1] = parent.prong;
 
+		// regions below that an earlier request left untouched because they already were on its path
+		// stay on that path when this sub-state is re-targeted as a whole by a later request
+		for (Short i = 0; i < COMPO_COUNT; ++i)
+			if (compoRequested[i] != INVALID_PRONG) {
+				Parent above = forkParent(static_cast<ForkID>(i + 1));
+
+				while (above && above.forkId != parent.forkId)
+					above = forkParent(above.forkId);
+
+				if (above && above.prong == parent.prong)
+					for (above = forkParent(static_cast<ForkID>(i + 1));
+						 above.forkId != parent.forkId;
+						 above = forkParent(above.forkId))
+					{
+						if (above.forkId > 0 && compoRequested[above.forkId - 1] == INVALID_PRONG)
+							compoRequested[above.forkId - 1] = above.prong;
+					}
+			}
+
 		for (parent = forkParent(parent.forkId);
 			 parent;
 			 parent = forkParent(parent.forkId))
